@@ -383,6 +383,10 @@ let check_call (f : string) (a : sx list) : string option =
   | "vclock", "intersection", [c; o; r] -> cmpvc (vintersection (vc_sx c) (vc_sx o)) (vc_sx r)
   | "vclock", "cmp", [c; o; r] -> cmp (=) show_ord (vcmp (vc_sx c) (vc_sx o)) (ord_sx r)
   | "vclock", "concurrent", [c; o; r] -> cmpb (vconcurrent (vc_sx c) (vc_sx o)) (bool_sx r)
+  | "vclock", "ops", [c; o; lt; le; gt; ge; eq] ->
+      let x = vc_sx c and y = vc_sx o in
+      cmp (=) (fun (a, b, c', d, e) -> Printf.sprintf "lt=%b le=%b gt=%b ge=%b eq=%b" a b c' d e)
+        (vlt x y, vle x y, vgt x y, vge x y, vc_eqb x y) (bool_sx lt, bool_sx le, bool_sx gt, bool_sx ge, bool_sx eq)
   | "vclock", "validate_op", [c; d; r] -> cmp (=) show_range (vvalidate_op (vc_sx c) (dot_sx d)) (range_sx r)
   | "vclock", "from_dot", [d; r] -> cmpvc (vfrom_dot (dot_sx d)) (vc_sx r)
   | "vclock", "dot", [c; x; d] -> cmp (=) show_dot (vdot (vc_sx c) (n_sx x)) (dot_sx d)
